@@ -21,7 +21,7 @@ ASSUMPTIONS = [
 ]
 REQUIRED = {"faithful.checked": 300, "independent.copy-mutated": 300, "independent.source-mutated": 300,
             "route.pickle": 20, "route.deepcopy": 20, "route.ctor": 100, "route.concatenate": 20, "route.join": 20,
-            "route.evolve": 20, "mutation.nested-attrib": 100, "sharing.walked": 300,
+            "route.evolve": 20, "route.concatenate-self": 10, "mutation.nested-attrib": 100, "sharing.walked": 300,
             "source.atoms-lent-before-copy": 50, "route.ctor-subclass": 20}
 CHUNK_TIMEOUT = 900
 TECHNIQUE = "runtime monitoring: deep snapshot equality + mutate-one-side/observe-the-other oracle, object-identity sharing walk"
@@ -113,7 +113,8 @@ def routes_for(kind):
     r = []
     if kind == "Conformer":
         return [("ctor", "Molecule"), ("ctor", "Structure"), ("ctor", "CartesianGeometry"), ("ctor", "Connectivity"),
-                ("ctor", "Promolecule"), ("atoms-copy", "Molecule"), ("concatenate", "Molecule"), ("ctor-subclass", "Molecule")]
+                ("ctor", "Promolecule"), ("atoms-copy", "Molecule"), ("concatenate", "Molecule"), ("ctor-subclass", "Molecule"),
+                ("pickle", "Conformer"), ("deepcopy", "Conformer")]
     chain = {"Promolecule": ["Promolecule"],
              "Connectivity": ["Promolecule", "Connectivity"],
              "CartesianGeometry": ["Promolecule", "CartesianGeometry"],
@@ -125,7 +126,7 @@ def routes_for(kind):
     if kind in ("Structure", "Molecule"):
         r += [("ctor-subclass", "Molecule"), ("ctor-subclass", "Structure")]
     if kind in ("Structure", "Molecule"):
-        r += [("concatenate", kind), ("or", "Structure"), ("join", kind)]
+        r += [("concatenate", kind), ("or", "Structure"), ("join", kind), ("concatenate-self", kind)]
     r += [("evolve-atom", "Atom")]
     if kind not in ("Promolecule", "CartesianGeometry"):
         r += [("evolve-bond", "Bond")]
@@ -341,7 +342,7 @@ def run_chunk(spec, ctx):
                          sample={"source": kind, "route": route, "target": target, "n_atoms": src.n_atoms})
                 tag = f"{kind}->{route}:{target}"
                 try:
-                    if route in ("concatenate", "or"):
+                    if route in ("concatenate", "or", "concatenate-self"):
                         check_concatenate(ctx, case, tag, src, s0, kind, route, rng)
                         continue
                     if route == "join":
@@ -365,7 +366,13 @@ def run_chunk(spec, ctx):
                 d = diff(a, b)
                 if d:
                     ctx.violation(f"{tag}:not-faithful:{field_of(d[0][0])}", case=case, diff=d[:4])
-                par = parent_report(cp)
+                if type(cp).__name__ == "Conformer":
+                    # a conformer is a view: its atoms belong to the (copied) ensemble behind it
+                    par = [("atom.parent", i, None) for i, a in enumerate(cp.atoms)
+                           if a.parent is None or a.parent is getattr(src, "_parent", None) or a.idx != i
+                           or a.parent.atoms[i] is not a]
+                else:
+                    par = parent_report(cp)
                 if par:
                     ctx.violation(f"{tag}:copy-parent-or-index-wrong:{par[0][0]}", case=case, bad=par[:3])
                 if snap_differs(s0, snap(src)):
@@ -506,6 +513,9 @@ def check_concatenate(ctx, case, tag, src, s0, kind, route, rng):
 
     other_rng = ctx.rng(case, "other")
     other, keep = make_source(other_rng, "Molecule" if kind in ("Molecule", "Conformer") else "Structure")
+    if route == "concatenate-self":
+        other = src                      # the same object twice (a dimer: m | m)
+        route = "or" if other_rng.random() < 0.5 else "concatenate"
     so = snap(other)
     if route == "or":
         res = src | other
